@@ -306,6 +306,33 @@ struct Probes
             return true;
         });
     }
+    // a real Sink whose flush() is visible: Logger::processMessage flushes every sink after a fatal message that was
+    // processed synchronously, still inside the logger's critical section
+    struct FlushProbe : public Sink
+    {
+        int delayUs = 0;
+        void send(const LogMessage &) override { }
+        bool flush() override
+        {
+            QJsonObject o;
+            o["e"] = "Flush";
+            o["t"] = tag();
+            o["ph"] = "begin";
+            emitLine(o);
+            jitter();
+            if (delayUs > 0)
+                std::this_thread::sleep_for(std::chrono::microseconds(delayUs));
+            o["ph"] = "end";
+            emitLine(o);
+            return true;
+        }
+    };
+    HandlerPtr flushProbe()
+    {
+        auto fp = QSharedPointer<FlushProbe>::create();
+        fp->delayUs = sinkDelayUs > 0 ? sinkDelayUs : 200;
+        return fp;
+    }
     HandlerPtr exit()
     {
         return FunctionHandlerPtr::create([](LogMessage &m) {
